@@ -573,3 +573,60 @@ pub fn gen_c17(tier: &str, seed: u64, out: &mut Vec<String>) {
         out.push("regs".into());
     }
 }
+
+/// C03 / C04: multi-instruction programs of calls, returns (matched and unmatched), pushes and pops on an initialised
+/// stack, observed after every step (registers, stack memory, call stack). Compared between implementation and model only.
+pub fn gen_stack_programs(tier: &str, seed: u64, out: &mut Vec<String>) {
+    let mut rng = Rng::new(seed ^ 0x57AC);
+    let n = if tier == "thorough" { 1500 } else { 120 };
+    for k in 0..n {
+        let mut prog: Vec<Ins> = vec![];
+        match k % 4 {
+            0 => {
+                // returns without calls: push code addresses, then return to them one after the other
+                let extra = 2 + rng.below(3) as usize;
+                let build = |targets: &[u64]| -> Vec<Ins> {
+                    let mut p = vec![];
+                    for t in targets {
+                        p.push(mov_r_imm32(0, *t as u32));
+                        p.push(push_r(0));
+                    }
+                    p.push(ret());
+                    for _ in 0..targets.len() {
+                        p.push(inc_r(1));
+                        p.push(ret());
+                    }
+                    p.push(nop());
+                    p
+                };
+                let (_, addrs) = assemble(&build(&vec![0; extra]), CODE);
+                // the k-th return lands on the k-th `inc; ret` pair
+                let first_pair = 2 * extra + 1;
+                let targets: Vec<u64> = (0..extra).rev().map(|j| addrs[first_pair + 2 * j]).collect();
+                prog = build(&targets);
+            }
+            1 => {
+                // the same function called several times; it returns through a pushed address once
+                prog = vec![call(4), call(4), nop(), ret(), inc_r(1), ret()];
+            }
+            _ => {
+                let len = 4 + rng.below(12) as usize;
+                prog.extend(random_program(&mut rng, len, true));
+            }
+        }
+        let (code, _) = assemble(&prog, CODE);
+        emit_new(out, &code, CODE);
+        out.push("nonative".into());
+        out.push(setregs_at(&mut rng, CODE));
+        out.push("stack 400".into());
+        out.push("maxinstr 40".into());
+        for _ in 0..24 {
+            out.push("step".into());
+            out.push("regs".into());
+            out.push("state".into());
+            out.push("callstack".into());
+        }
+        out.push("areas".into());
+        out.push("trace".into());
+    }
+}
